@@ -638,14 +638,20 @@ namespace bloch::update {
                       << std::endl;
             return false;
         }
+        const auto currentSem = parseSemVer(currentVersion);
+        const auto latestSem = parseSemVer(*latest);
+        if (!currentSem.valid || !latestSem.valid) {
+            std::cerr << "Cannot determine whether an update is needed (installed version '"
+                      << currentVersion << "', latest release '" << *latest << "'); not updating."
+                      << std::endl;
+            return false;
+        }
         if (hasLatest(currentVersion, *latest)) {
             std::cout << "You already have the latest Bloch release (" << *latest << ")."
                       << std::endl;
             return true;
         }
 
-        const auto currentSem = parseSemVer(currentVersion);
-        const auto latestSem = parseSemVer(*latest);
         if (currentSem.valid && latestSem.valid && latestSem.major > currentSem.major) {
             std::cout << "A major Bloch update is available (" << currentVersion << " -> "
                       << *latest << "). Review changes: " << kChangelogUrl
